@@ -338,7 +338,7 @@ NOINST static void answer(long idx, const uint8_t *addr, uint8_t type, const uin
 	case MSG_LC_MACRO_HANDLE: rt = MSG_LC_MACRO_STATE; r[0] = D(0); r[1] = D(1); rl = 2; break;
 	case MSG_LC_MACRO_SET: case MSG_LC_MACRO_GET: rt = MSG_LC_MACRO; memset(r, 0, 6); r[0] = D(0); r[1] = D(1); rl = 6; break;
 	case MSG_LC_MACRO_PARA_SET: case MSG_LC_MACRO_PARA_GET: rt = MSG_LC_MACRO_PARA; memset(r, 0, 6); r[0] = D(0); r[1] = D(1); rl = 6; break;
-	case MSG_CS_SET_STATE: if (D(0) != 0xFF) n->cs_state = D(0); rt = MSG_CS_STATE; r[0] = n->cs_state; rl = 1; break;
+	case MSG_CS_SET_STATE: if (D(0) != 0xFF) n->cs_state = D(0); rt = MSG_CS_STATE; r[0] = (pol == 1) ? 0x00 /* the command station reports OFF */ : n->cs_state; rl = 1; break;
 	case MSG_CS_DRIVE: case MSG_CS_BIN_STATE: rt = MSG_CS_DRIVE_ACK; r[0] = D(0); r[1] = D(1); r[2] = 1; rl = 3; break;
 	case MSG_CS_ACCESSORY: rt = MSG_CS_ACCESSORY_ACK; r[0] = D(0); r[1] = D(1); r[2] = 1; rl = 3; break;
 	case MSG_CS_POM: rt = MSG_CS_POM_ACK; r[0] = D(0); r[1] = D(1); r[2] = D(2); r[3] = D(3); r[4] = D(4); r[5] = 1; rl = 6; break;
